@@ -218,6 +218,11 @@ func checkC11(c *core.Ctx) {
 			c11SrvRun(c, filepath.Join(c.Scratch, "c11srv"), sc.Root, sc.Ops)
 			return
 		}
+		var mc c11MemCase
+		if err := jsonUnmarshal(c.Replay, &mc); err == nil && mc.Part == "membership" {
+			c11MemRun(c, filepath.Join(c.Scratch, "c11mem"), mc.Root, mc.Ops)
+			return
+		}
 		var cs c11Case
 		if err := jsonUnmarshal(c.Replay, &cs); err != nil {
 			c.Res.InfraError = "bad replay: " + err.Error()
@@ -232,6 +237,10 @@ func checkC11(c *core.Ctx) {
 		return
 	}
 	c11ServerHistories(c, filepath.Join(c.Scratch, "c11srv"))
+	if c.Expired() {
+		return
+	}
+	c11MembershipHistories(c, filepath.Join(c.Scratch, "c11mem"))
 	if c.Expired() {
 		return
 	}
